@@ -45,6 +45,10 @@ def obligations(tier):
                  clause="structure check: user table consulted first, built-in table (closure body, named by an env helper) only when the name is not declared")]
     out += [dict(engine="verus", unit="infix", function="reparse::final_fold", name="C08/infix/reparse_final_fold", source=INFIX + "::reparse (statements after the token loop)",
                  clause="operators still pending when the input is exhausted group to the right, in order, over all operands (nothing dropped, duplicated or swapped); the closing length assertion and the unwraps cannot fire (inductive invariant + lemma)")]
+    out += [dict(engine="verus", unit="token", function="Tokenizer::take_until", name="C08/token/Tokenizer_take_until", source="parser/src/token.rs::Tokenizer::take_until",
+                 clause="consumes bytes up to (excluding) the first byte satisfying the test, or everything if there is none; the input is unchanged")]
+    out += [dict(engine="verus", unit="token", function="Tokenizer::block_comment", name="C08/token/Tokenizer_block_comment", source="parser/src/token.rs::Tokenizer::block_comment",
+                 clause="a block comment ends at the first `*/` behind its opening `/*` (whatever precedes the slash) and the tokenizer continues right behind it; end-of-file error only if there is no `*/`")]
     out += [dict(engine="verus", unit="layout", function=f, name="C08/layout/" + f.replace("::", "_"), source="parser/src/layout.rs::" + f, clause=c) for f, c in [
         ("Offside::new", "field-wise constructor"),
         ("Contexts::push", "pushes the context unless the indentation check refuses; nothing else changes"),
